@@ -5,7 +5,7 @@ from ..astutil import aug_form, dotted, effective, method_call
 from ..cfg import cfg_of, fact_key, norm, walk_own
 from ..consteval import fold_in
 from ..mutate import B, M
-from .c03 import ext_fetcher_rules, param_type_table_rules, toc_lookup_rules
+from .c03 import session_object_rules, ext_fetcher_rules, param_type_table_rules, toc_lookup_rules
 from ..symexec import paths_of, paths_of_block
 
 PROP = 'C04'
@@ -207,6 +207,13 @@ def check(ctx):
             ctx.inst('R6', cl, '%s:variable-id' % fname, idfact in keys,
                      'reply consumed at line %d without comparing its variable id (bytes 1..2) with the request\'s element.ident: with several requests '
                      'outstanding one reply is delivered to all of them' % n.line, line=n.line)
+        # one shot: every delivery of the answer to the caller's callback is followed, on every path, by the removal of this handler
+        # (a handler left behind by a refused request also receives the answer of the next request for the same parameter)
+        rmv = [n for n, c in consumed if method_call(c, 'remove_port_callback')]
+        dlv = [n for n, c in consumed if norm(c.func) == 'callback']
+        leak = [n.line for n in dlv if gc.path_avoiding(n, [gc.exit], avoid=rmv) is not None]
+        ctx.inst('R6', cl, '%s:handler-removed-after-every-answer' % fname, bool(dlv) and not leak,
+                 'answers delivered at lines %s can leave the handler registered' % leak)
         packs = [c for c in walk_own(f.node) if isinstance(c, ast.Call) and dotted(c.func) == 'struct.pack' and fold_in(f, c.args[0]) == '<BH']
         ctx.inst('R6', f, '%s:request' % fname, len(packs) == 1 and [norm(a) for a in packs[0].args[1:]] == [cmd, 'element.ident'],
                  'request must be pack(<BH, %s, element.ident); found %s' % (cmd, [norm(c) for c in packs]))
@@ -289,18 +296,17 @@ def check(ctx):
     param_type_table_rules(ctx, 'R12')
 
     # ---- R13: the extended-type fetcher works on the table of the current connection ----------------------
-    fetchers = [(mth, st_) for mth in P.methods.values() for st_ in ast.walk(mth.node)
-                if isinstance(st_, ast.Assign) and isinstance(st_.value, ast.Call) and dotted(st_.value.func) == '_ExtendedTypeFetcher']
-    ctx.need(fetchers, 'no construction of _ExtendedTypeFetcher found')
-    cr_ = P.method('_connection_requested')
-    reset_attrs = {norm(t) for s_ in walk_own(cr_.node) if isinstance(s_, ast.Assign) for t in s_.targets} | \
-        {norm(t) for s_ in walk_own(P.method('_disconnected').node) if isinstance(s_, ast.Assign) for t in s_.targets}
-    for f_, st_ in fetchers:
-        tgt = norm(st_.targets[0])
-        args = [norm(a) for a in st_.value.args]
-        ok = args == ['self.cf', 'self.toc'] and (not tgt.startswith('self.') or tgt in reset_attrs)
-        ctx.inst('R13', f_, 'fetcher-per-connection', ok, 'every connection attempt replaces Param.toc, so a fetcher (which keeps the table it was built with) must be built per refresh '
-                 'from the current self.toc - or dropped when a connection starts/ends; built as %s = _ExtendedTypeFetcher(%s)' % (tgt, ', '.join(args)), line=st_.lineno)
+    session_object_rules(ctx, 'R13')
+    # read-only / type / index of a parameter may come from the TOC cache: what the cache stores is what it gives back (shared, C11.R4)
+    from .c11 import cache_codec_rules
+    cache_codec_rules(ctx, 'R13')
+    # the one-request-at-a-time gate is a plain Lock: close() releases it "just in case" on every disconnect, which an unlocked Lock
+    # refuses (error swallowed) but a Semaphore counts - after an idle disconnect two requests would go out back to back
+    for cls_, attr in (('_ParamUpdater', 'self.wait_lock'), ('_ExtendedTypeFetcher', 'self._lock')):
+        ini_ = m.cls('cflib/crazyflie/param.py', cls_).method('__init__')
+        mk_ = [s_ for s_ in walk_own(ini_.node) if isinstance(s_, ast.Assign) and norm(s_.targets[0]) == attr]
+        ctx.inst('R4', ini_, 'gate-is-a-lock:' + attr, len(mk_) == 1 and isinstance(mk_[0].value, ast.Call) and dotted(mk_[0].value.func) in ('Lock', 'threading.Lock') and not mk_[0].value.args,
+                 '%s = %s; expected Lock()' % (attr, norm(mk_[0].value) if mk_ else None))
 
     # ---- R10: the extended-type fetcher (same single-outstanding-request protocol) ----------------
     ext_fetcher_rules(ctx, 'R10')
